@@ -246,6 +246,23 @@ def run(ctx: Ctx) -> Result:
                                 res.violations.append({'input': {'source': 'run_auth_scripts', 'scripts': [x.hex() for x in scripts], 'callstack_limit': cl, 'what': f'{what_}, n = {n}, in the last of {len(scripts)} script(s)'},
                                                        'expected': f'{want}: the configured call-stack limit bounds loops and call chains in every script of the list', 'observed': str(got), 'how_to_run': './check C07 --tier quick'})
     vmrun.in_big_thread(auth_limits)
+    # a block whose declared length runs past the end of the script is an error whichever way its condition goes: no instruction
+    # steps the tape pointer past the end without the read check
+    def truncated_blocks():
+        N = G.names()
+        for cond in (N['TRUE'], N['FALSE']):
+            for name, tail in (('IF', b''), ('IF_ELSE', b''), ('LOOP', b''), ('TRY_EXCEPT', b''), ('DEF', None)):
+                for declared, have in ((5, 1), (2, 1), (1, 0), (300, 3), (65535, 10)):
+                    body = bytes([N['TRUE']]) * have
+                    if name == 'DEF': script = bytes([N['DEF'], 0]) + declared.to_bytes(2, 'big') + body
+                    elif name == 'TRY_EXCEPT': script = bytes([N[name]]) + declared.to_bytes(2, 'big') + body
+                    else: script = bytes([cond, N[name]]) + declared.to_bytes(2, 'big') + body
+                    o = vmrun.run_impl(vmrun.Cfg(), {}, script)
+                    res.note_case(('truncated-block', name, cond, declared, have))
+                    if not o.startswith('ERR') and len(res.violations) < 10:
+                        res.violations.append({'input': {'source': 'run_script', 'script': script.hex(), 'what': f'{name} declaring a {declared}-byte body with {have} byte(s) left, condition {"true" if cond == N["TRUE"] else "false"}'},
+                                               'expected': 'an error (the declared body cannot be read: the tape has fewer bytes left)', 'observed': o[:120], 'how_to_run': './check C07 --tier quick'})
+    vmrun.in_big_thread(truncated_blocks)
     # no single instruction loops without end or grows an operand without bound: the zero-padding bitwise instructions on operands
     # of different lengths, in both orders, end with an item as long as the longer operand
     def bitops():
